@@ -33,7 +33,10 @@ use syn::visit::Visit;
 use syn::visit_mut::VisitMut;
 use syn::{Expr, Pat, Stmt};
 
-pub const TARGETS: &[Target] = &[("c10builtins", "C10Builtins", c10builtins as super::Gen)];
+pub const TARGETS: &[Target] = &[
+    ("c10builtins", "C10Builtins", c10builtins as super::Gen),
+    ("c10locks", "C10Locks", c10locks as super::Gen),
+];
 
 type R = Result<String, String>;
 
@@ -539,6 +542,8 @@ fn base_cx() -> Cx {
     cx.methods.insert("splitn".into(), Meth::Pure("Str.splitn".into()));
     cx.methods.insert("rsplitn".into(), Meth::Pure("Str.rsplitn".into()));
     cx.methods.insert("collect".into(), Meth::Identity);
+    cx.methods.insert("to_vec".into(), Meth::Identity);
+    cx.methods.insert("join".into(), Meth::Pure("Str.join".into()));
     cx.paths.insert("Prefix::new_relaxed".into(), "Prefix.new_relaxed".into());
     cx
 }
@@ -680,7 +685,7 @@ pub fn c10builtins(repo: &Path) -> Result<String, String> {
             n => Err(format!("binding {imp}.{name}: {n} definitions found in library! blocks")),
         }
     };
-    let bindings: [(&str, &str, &str, &str, &str, &[(&str, &str)]); 14] = [
+    let bindings: [(&str, &str, &str, &str, &str, &[(&str, &str)]); 15] = [
         ("StringBytes", "len", "(self_ : Str)", "U64", "StringBytes", &[("len", "StringBytes_len")]),
         ("StringBytes", "get", "(self_ : Str) (idx : U64)", "Option Char", "StringBytes", &[("get", "StringBytes_get")]),
         ("StringBytes", "slice", "(self_ : Str) (start end_ : U64)", "Option Str", "StringBytes", &[("slice", "StringBytes_slice")]),
@@ -695,6 +700,9 @@ pub fn c10builtins(repo: &Path) -> Result<String, String> {
         ("RotoString", "rsplitn", "(self_ : Str) (n : U64) (separator : Str)", "List Str", "String", &[("rsplitn", "RotoString_rsplitn")]),
         ("Prefix", "new", "(ip : IpAddr) (len : U8)", "Prefix", "Prefix", &[]),
         ("ErasedList", "swap", "(self_ : RawListS) (i j : U64)", "Option (USz × USz)", "List", &[("swap", "RawList_swap")]),
+        // `List.join`: the list of strings as the host-side `List<RotoString>` it is transmuted to;
+        // any size/capacity arithmetic written into the binding is transliterated (and must be proved)
+        ("ErasedList", "join", "(self_ : List Str) (separator : Str)", "Str", "List", &[]),
     ];
     for (imp, name, binders, ret, _roto, methods) in bindings {
         let f = find_fn(imp, name)?;
@@ -704,7 +712,11 @@ pub fn c10builtins(repo: &Path) -> Result<String, String> {
         }
         let mut blk = f.body.clone();
         // `&separator` is handled by r2l (references are transparent)
-        if imp == "ErasedList" {
+        if imp == "ErasedList" && name == "join" {
+            let tm = "unsafe{std::mem::transmute::<ErasedList,List<RotoString>>(self)}";
+            replace(&mut blk, &[(tm, "self")], &[(tm, 1)], "bind_ErasedList_join")?;
+        }
+        if imp == "ErasedList" && name == "swap" {
             // `self.swap(i, j);` is the last statement of a unit function: keep its result
             if let Some(Stmt::Expr(e, semi)) = blk.stmts.last_mut() {
                 let _ = e;
@@ -750,5 +762,416 @@ pub fn c10builtins(repo: &Path) -> Result<String, String> {
     m.visit_file(&string);
     out.push_str(&surface_table("StrFn", &m.0));
     out.push_str(&footer("C10Builtins"));
+    Ok(out)
+}
+
+// =============================================================== lock sites
+//
+// `c10locks` → `Generated/C10Locks.lean`: for every function of
+// `src/value/list.rs` (outside `mod tests`) and every binding body of
+// `src/runtime/basic.rs` that touches a mutex, the sequence of lock events as
+// written: each acquisition with its kind (blocking `.lock()` / `.try_lock()`),
+// what happens to the `Err` of its result (`unwrap` / `expect` / anything else),
+// which list it locks (receiver `self`/`this`, `other`, a fresh `new`), each
+// release (`drop(guard)`, end of the statement for a temporary guard, end of the
+// function for a named one) and the `if Arc::ptr_eq(..) { return .. }` guard.
+// A helper that returns a `MutexGuard` is resolved at its call sites.
+// `RotoV.Model.MutexPanic` gives these events their meaning.
+
+#[derive(Clone, Debug, PartialEq)]
+enum LEv {
+    Acq { kind: &'static str, on_fail: &'static str, tgt: &'static str },
+    Rel(&'static str),
+    Distinct,
+}
+
+fn strip(e: &impl ToTokens) -> String {
+    e.to_token_stream().to_string().replace(' ', "")
+}
+
+fn tgt_of(recv: &str) -> &'static str {
+    let r = recv.trim_start_matches('&').trim_start_matches('(');
+    let first: String = r.chars().take_while(|c| c.is_alphanumeric() || *c == '_').collect();
+    match first.as_str() {
+        "self" | "this" | "self_" => "self_",
+        "other" => "other",
+        "new" => "fresh",
+        _ => "unknown",
+    }
+}
+
+struct LockWalk<'h> {
+    helpers: &'h BTreeMap<String, (&'static str, &'static str)>,
+    ev: Vec<LEv>,
+    /// named guards still held: (binding name or None once shadowed, target)
+    held: Vec<(Option<String>, &'static str)>,
+    /// temporaries acquired in the current statement
+    temps: Vec<&'static str>,
+    /// `let swap = Arc::as_ptr(&P.0) > Arc::as_ptr(&Q.0);` ↦ (P, Q, is_greater)
+    order_flags: BTreeMap<String, (String, String, bool)>,
+    /// names bound by the address-order idiom: the lower- / higher-addressed list
+    names: BTreeMap<String, &'static str>,
+}
+
+/// `Arc::as_ptr(&P.0) > Arc::as_ptr(&Q.0)` (or `<`) ↦ (P, Q, is_greater)
+fn addr_compare(e: &Expr) -> Option<(String, String, bool)> {
+    let Expr::Binary(b) = e else { return None };
+    let gt = match b.op {
+        syn::BinOp::Gt(_) => true,
+        syn::BinOp::Lt(_) => false,
+        _ => return None,
+    };
+    let side = |x: &Expr| -> Option<String> {
+        let t = strip(x);
+        let inner = t.strip_prefix("Arc::as_ptr(&")?.strip_suffix(".0)")?;
+        Some(inner.to_string())
+    };
+    Some((side(&b.left)?, side(&b.right)?, gt))
+}
+
+fn tuple2(b: &syn::Block) -> Option<(String, String)> {
+    match b.stmts.as_slice() {
+        [Stmt::Expr(Expr::Tuple(t), None)] if t.elems.len() == 2 => Some((strip(&t.elems[0]), strip(&t.elems[1]))),
+        _ => None,
+    }
+}
+
+impl LockWalk<'_> {
+    fn tgt(&self, recv: &str) -> &'static str {
+        let r = recv.trim_start_matches('&').trim_start_matches('(');
+        let first: String = r.chars().take_while(|c| c.is_alphanumeric() || *c == '_').collect();
+        match self.names.get(&first) {
+            Some(t) => t,
+            None => tgt_of(recv),
+        }
+    }
+    /// `let (x, y) = if swap { (Q, P) } else { (P, Q) };` with `swap = addr(P) > addr(Q)`:
+    /// `x` is the lower-addressed list, `y` the higher-addressed one
+    fn order_idiom(&mut self, l: &syn::Local) -> bool {
+        let Pat::Tuple(pt) = &l.pat else { return false };
+        let ids: Vec<String> = pt.elems.iter().filter_map(|p| if let Pat::Ident(i) = p { Some(i.ident.to_string()) } else { None }).collect();
+        if ids.len() != 2 || pt.elems.len() != 2 {
+            return false;
+        }
+        let Some(init) = &l.init else { return false };
+        let Expr::If(i) = &*init.expr else { return false };
+        let cmp = addr_compare(&i.cond).or_else(|| self.order_flags.get(&strip(&i.cond)).cloned());
+        let Some((p, q, gt)) = cmp else { return false };
+        let Some((_, Expr::Block(eb))) = i.else_branch.as_ref().map(|(t, e)| (t, &**e)) else { return false };
+        let (Some(th), Some(el)) = (tuple2(&i.then_branch), tuple2(&eb.block)) else { return false };
+        // under the condition the first component must be the lower address, and likewise under its negation
+        let (want_then, want_else) = if gt { ((q.clone(), p.clone()), (p.clone(), q.clone())) } else { ((p.clone(), q.clone()), (q.clone(), p.clone())) };
+        let both_lists = [tgt_of(&p), tgt_of(&q)];
+        if th == want_then && el == want_else && both_lists.contains(&"self_") && both_lists.contains(&"other") {
+            self.names.insert(ids[0].clone(), "lo");
+            self.names.insert(ids[1].clone(), "hi");
+            return true;
+        }
+        false
+    }
+}
+
+impl LockWalk<'_> {
+    /// `<recv>.lock().unwrap()` / `.try_lock().expect(..)` / `<recv>.lock()` / `<recv>.helper()`
+    fn as_acq(&self, e: &Expr) -> Option<(&'static str, &'static str, &'static str, Vec<Expr>)> {
+        let Expr::MethodCall(m) = e else { return None };
+        let name = m.method.to_string();
+        let unwrapish = match name.as_str() {
+            "unwrap" | "unwrap_unchecked" => Some("unwrap"),
+            "expect" => Some("expect"),
+            _ => None,
+        };
+        if let Some(of) = unwrapish {
+            if let Expr::MethodCall(inner) = &*m.receiver {
+                let k = match inner.method.to_string().as_str() {
+                    "lock" => Some("blocking"),
+                    "try_lock" => Some("try_"),
+                    _ => None,
+                };
+                if let Some(k) = k {
+                    return Some((k, of, self.tgt(&strip(&inner.receiver)), m.args.iter().cloned().collect()));
+                }
+            }
+            return None;
+        }
+        match name.as_str() {
+            "lock" => Some(("blocking", "other", self.tgt(&strip(&m.receiver)), vec![])),
+            "try_lock" => Some(("try_", "other", self.tgt(&strip(&m.receiver)), vec![])),
+            h if m.args.is_empty() && self.helpers.contains_key(h) => {
+                let (k, of) = self.helpers[h];
+                Some((k, of, self.tgt(&strip(&m.receiver)), vec![]))
+            }
+            _ => None,
+        }
+    }
+    fn release_temps(&mut self, from: usize) {
+        while self.temps.len() > from {
+            let t = self.temps.pop().unwrap();
+            self.ev.push(LEv::Rel(t));
+        }
+    }
+}
+
+impl<'ast> Visit<'ast> for LockWalk<'_> {
+    fn visit_stmt(&mut self, s: &'ast Stmt) {
+        let mark = self.temps.len();
+        if let Stmt::Local(l) = s {
+            let name = match &l.pat {
+                Pat::Ident(i) => Some(i.ident.to_string()),
+                Pat::Type(t) => match &*t.pat {
+                    Pat::Ident(i) => Some(i.ident.to_string()),
+                    _ => None,
+                },
+                _ => None,
+            };
+            if self.order_idiom(l) {
+                return;
+            }
+            if let (Some(n), Some(init)) = (&name, &l.init) {
+                if let Some(c) = addr_compare(&init.expr) {
+                    self.order_flags.insert(n.clone(), c);
+                }
+            }
+            if let Some(init) = &l.init {
+                if let Some((k, of, t, _)) = self.as_acq(&init.expr) {
+                    // a guard bound to a name lives until `drop(name)` or the end of the function
+                    self.ev.push(LEv::Acq { kind: k, on_fail: of, tgt: t });
+                    for h in self.held.iter_mut() {
+                        if h.0 == name {
+                            h.0 = None;
+                        }
+                    }
+                    self.held.push((name, t));
+                    return;
+                }
+            }
+            syn::visit::visit_stmt(self, s);
+            // a later `let` of the same name shadows the guard: it stays held, but cannot be dropped by name
+            for h in self.held.iter_mut() {
+                if h.0.is_some() && h.0 == name {
+                    h.0 = None;
+                }
+            }
+        } else {
+            syn::visit::visit_stmt(self, s);
+        }
+        self.release_temps(mark);
+    }
+    fn visit_expr(&mut self, e: &'ast Expr) {
+        if let Some((k, of, t, _args)) = self.as_acq(e) {
+            self.ev.push(LEv::Acq { kind: k, on_fail: of, tgt: t });
+            self.temps.push(t);
+            return;
+        }
+        if let Expr::Call(c) = e {
+            if strip(&c.func) == "drop" && c.args.len() == 1 {
+                let a = strip(&c.args[0]);
+                if let Some(pos) = self.held.iter().rposition(|h| h.0.as_deref() == Some(a.as_str())) {
+                    let (_, t) = self.held.remove(pos);
+                    self.ev.push(LEv::Rel(t));
+                    return;
+                }
+            }
+        }
+        if let Expr::If(i) = e {
+            if strip(&i.cond).starts_with("Arc::ptr_eq(") && crate::r2l::diverges(&i.then_branch.stmts) {
+                self.ev.push(LEv::Distinct);
+            }
+        }
+        syn::visit::visit_expr(self, e);
+    }
+    fn visit_item(&mut self, _i: &'ast syn::Item) {} // nested items are functions of their own
+}
+
+fn lock_events(block: &syn::Block, helpers: &BTreeMap<String, (&'static str, &'static str)>) -> Vec<LEv> {
+    let mut w = LockWalk { helpers, ev: vec![], held: vec![], temps: vec![], order_flags: BTreeMap::new(), names: BTreeMap::new() };
+    for s in &block.stmts {
+        w.visit_stmt(s);
+    }
+    // the tail expression's temporaries and the named guards die at the end of the body
+    w.release_temps(0);
+    while let Some((_, t)) = w.held.pop() {
+        w.ev.push(LEv::Rel(t));
+    }
+    w.ev
+}
+
+struct ListFns {
+    path: Vec<String>,
+    cur: Option<String>,
+    out: Vec<(String, String, syn::Block, String)>, // (ctor, owner, body, return type text)
+}
+impl<'ast> Visit<'ast> for ListFns {
+    fn visit_item_mod(&mut self, m: &'ast syn::ItemMod) {
+        if m.ident == "tests" {
+            return;
+        }
+        self.path.push(m.ident.to_string());
+        syn::visit::visit_item_mod(self, m);
+        self.path.pop();
+    }
+    fn visit_item_impl(&mut self, i: &'ast syn::ItemImpl) {
+        let ty = strip(&i.self_ty);
+        let ty: String = ty.split('<').next().unwrap_or("").to_string();
+        let label = match &i.trait_ {
+            Some((_, p, _)) => format!("{}_for_{}", p.segments.last().map(|s| s.ident.to_string()).unwrap_or_default(), ty),
+            None => ty,
+        };
+        let old = self.cur.replace(label);
+        syn::visit::visit_item_impl(self, i);
+        self.cur = old;
+    }
+    fn visit_impl_item_fn(&mut self, f: &'ast syn::ImplItemFn) {
+        let owner = self.cur.clone().unwrap_or_default();
+        let mut parts = self.path.clone();
+        parts.push(owner.clone());
+        parts.push(f.sig.ident.to_string());
+        self.out.push((ctor_name(&parts[..parts.len() - 1].join("_"), &f.sig.ident.to_string()), owner, f.block.clone(), strip(&f.sig.output)));
+        syn::visit::visit_impl_item_fn(self, f);
+    }
+    fn visit_item_fn(&mut self, f: &'ast syn::ItemFn) {
+        let mut parts = self.path.clone();
+        if let Some(c) = &self.cur {
+            parts.push(c.clone());
+        }
+        let owner = if parts.is_empty() { "free".to_string() } else { parts.join("_") };
+        self.out.push((ctor_name(&owner, &f.sig.ident.to_string()), owner, (*f.block).clone(), strip(&f.sig.output)));
+        syn::visit::visit_item_fn(self, f);
+    }
+}
+
+pub fn c10locks(repo: &Path) -> Result<String, String> {
+    let list = find::parse(repo, "src/value/list.rs")?;
+    let basic = find::parse(repo, "src/runtime/basic.rs")?;
+    let mut lf = ListFns { path: vec![], cur: None, out: vec![] };
+    lf.visit_file(&list);
+    if lf.out.len() < 40 {
+        return Err(format!("only {} functions found in src/value/list.rs", lf.out.len()));
+    }
+    // helpers: functions that hand out a guard (their single acquisition is charged to the caller)
+    let none = BTreeMap::new();
+    let mut helpers: BTreeMap<String, (&'static str, &'static str)> = BTreeMap::new();
+    for (ctor, _owner, body, ret) in &lf.out {
+        if ret.contains("MutexGuard") {
+            let acqs: Vec<LEv> = lock_events(body, &none).into_iter().filter(|e| matches!(e, LEv::Acq { .. })).collect();
+            let name = ctor.rsplit('_').next().unwrap_or("").to_string();
+            match acqs.as_slice() {
+                [LEv::Acq { kind, on_fail, .. }] => {
+                    // the ctor's last `_`-separated piece is not the method name when it contains `_`: use the real one
+                    let _ = name;
+                    helpers.insert(ctor.clone(), (*kind, *on_fail));
+                }
+                other => return Err(format!("guard-returning function {ctor}: expected exactly one acquisition, found {}", other.len())),
+            }
+        }
+    }
+    // re-key helpers by method name
+    let mut by_method: BTreeMap<String, (&'static str, &'static str)> = BTreeMap::new();
+    {
+        struct Names(Vec<(String, String)>);
+        impl<'ast> Visit<'ast> for Names {
+            fn visit_item_mod(&mut self, m: &'ast syn::ItemMod) {
+                if m.ident != "tests" {
+                    syn::visit::visit_item_mod(self, m);
+                }
+            }
+            fn visit_impl_item_fn(&mut self, f: &'ast syn::ImplItemFn) {
+                if strip(&f.sig.output).contains("MutexGuard") {
+                    self.0.push((f.sig.ident.to_string(), strip(&f.sig.output)));
+                }
+            }
+            fn visit_item_fn(&mut self, f: &'ast syn::ItemFn) {
+                if strip(&f.sig.output).contains("MutexGuard") {
+                    self.0.push((f.sig.ident.to_string(), strip(&f.sig.output)));
+                }
+            }
+        }
+        let mut n = Names(vec![]);
+        n.visit_file(&list);
+        if n.0.len() != helpers.len() {
+            return Err("guard-returning helpers: name table out of step".into());
+        }
+        for ((m, _), (_, v)) in n.0.iter().zip(helpers.iter()) {
+            if by_method.insert(m.clone(), *v).is_some() {
+                return Err(format!("two guard-returning helpers are named {m}"));
+            }
+        }
+    }
+    let mut rows: Vec<(String, String, Vec<LEv>)> = vec![];
+    let mut seen = HashSet::new();
+    for (ctor, owner, body, ret) in &lf.out {
+        if ret.contains("MutexGuard") {
+            continue; // charged to its callers
+        }
+        let ev = lock_events(body, &by_method);
+        if ev.is_empty() {
+            continue;
+        }
+        let mut c = ctor.clone();
+        while !seen.insert(c.clone()) {
+            c.push('\'');
+        }
+        rows.push((c, owner.clone(), ev));
+    }
+    for f in library_fns(&basic)? {
+        let ev = lock_events(&f.body, &by_method);
+        if ev.is_empty() {
+            continue;
+        }
+        let mut c = format!("binding_{}", ctor_name(&f.impl_ty, &f.name));
+        while !seen.insert(c.clone()) {
+            c.push('\'');
+        }
+        rows.push((c, "binding".into(), ev));
+    }
+    if rows.len() < 10 {
+        return Err(format!("only {} functions with lock events found (list.rs restructured?)", rows.len()));
+    }
+    // which functions compiled code reaches: everything on the erased list and the FFI shims, plus the
+    // host-side `List<T>` methods that a binding body calls by name (`to_vec` in `join`)
+    let mut called: HashSet<String> = HashSet::new();
+    for f in library_fns(&basic)?.iter().filter(|f| f.impl_ty == "ErasedList") {
+        struct Calls<'a>(&'a mut HashSet<String>);
+        impl<'ast> Visit<'ast> for Calls<'_> {
+            fn visit_expr_method_call(&mut self, m: &'ast syn::ExprMethodCall) {
+                self.0.insert(m.method.to_string());
+                syn::visit::visit_expr_method_call(self, m);
+            }
+        }
+        Calls(&mut called).visit_block(&f.body);
+    }
+    let mut out = header("C10Locks", &["src/value/list.rs", "src/runtime/basic.rs"])
+        .replace("import RotoV.Model.Clif\n", "import RotoV.Model.Clif\nimport RotoV.Model.MutexPanic\n");
+    out.push_str("open RotoV.MutexPanic\n\n");
+    out.push_str(&format!("/-- functions scanned in src/value/list.rs (outside `mod tests`) -/\ndef scannedListFns : Nat := {}\n\n", lf.out.len()));
+    out.push_str(&format!("/-- guard-returning helpers resolved at their call sites -/\ndef guardHelpers : List String := [{}]\n\n",
+        by_method.keys().map(|k| format!("\"{k}\"")).collect::<Vec<_>>().join(", ")));
+    out.push_str("inductive LockFn where\n");
+    for (c, _, _) in &rows {
+        out.push_str(&format!("  | {c}\n"));
+    }
+    out.push_str("  deriving DecidableEq, Repr\n\n");
+    out.push_str(&format!("def LockFn.all : List LockFn := [{}]\n\n", rows.iter().map(|r| format!(".{}", r.0)).collect::<Vec<_>>().join(", ")));
+    out.push_str("def LockFn.events : LockFn → List Ev\n");
+    for (c, _, ev) in &rows {
+        let e: Vec<String> = ev.iter().map(|e| match e {
+            LEv::Acq { kind, on_fail, tgt } => format!(".acq .{kind} .{on_fail} .{tgt}"),
+            LEv::Rel(t) => format!(".rel .{t}"),
+            LEv::Distinct => ".distinctOrReturn".to_string(),
+        }).collect();
+        out.push_str(&format!("  | .{c} => [{}]\n", e.join(", ")));
+    }
+    out.push_str("\n/-- reached by compiled code: methods of the erased list, the FFI shims, binding bodies, and\n    the host-side `List<T>` methods a list binding calls by name -/\ndef LockFn.reachedByBuiltins : LockFn → Bool\n");
+    for (c, owner, _) in &rows {
+        let base = c.trim_end_matches('\'');
+        let is_erased = owner == "ErasedList" || owner.ends_with("_for_ErasedList");
+        let is_ffi = owner.starts_with("ffi");
+        let is_binding = owner == "binding";
+        let host_called = !is_erased && !is_binding && owner.contains("List") && !owner.contains("RawList")
+            && called.iter().any(|m| base.ends_with(&format!("_{m}")));
+        out.push_str(&format!("  | .{c} => {}\n", is_erased || is_ffi || is_binding || host_called));
+    }
+    out.push('\n');
+    out.push_str(&footer("C10Locks"));
     Ok(out)
 }
